@@ -25,26 +25,29 @@ ROWS = {
             'every shape of 3 operators in a flat stretch, all strings <= 2 '
             'over 25 characters x 6 placements, all 2^gaps blank placements '
             'for small trees, defined names, twin formulas in every order, '
-            'parsing after the tokenizer\'s range switch was used',
+            'parsing after the tokenizer\'s range switch was used, one parser '
+            'object for many formulas',
             'trees <= 3 nodes, chains of 4 operators, strings <= 3'),
     'C03': ('P, exploration',
             'generated .xlsx / dict models: 5 sheet-name configurations '
             '(blanks, apostrophes, `$`), every spelling of every cell and '
             'rectangle of a 4x4 grid, every fill pattern of small rectangles '
             'with shape oracles, gaps 0..250, whole rows, names (two areas, '
-            'ending in digit+E, sheet-scoped twins), a second load through a '
-            'used compiler and evaluator, address utilities',
+            'ending in digit+E, sheet-scoped twins, named ranges on extracts), '
+            'a second load through a used compiler and evaluator, address '
+            'utilities',
             '4th configuration, larger pattern rectangles, whole-column refs'),
     'C04': ('H, model_checking',
             '16 models (+ whole-row and 400-cell chain at depth 2-3); all '
             'histories of set / set-through-name / evaluate <= 4 unmerged '
             '(named <= 3), merged BFS by fingerprint to depth 5; reference '
             'arithmetic, fresh-model differential, stored values of every '
-            'cell computed on the way, purity of reads',
+            'cell computed on the way, purity of reads, the model object '
+            'loaded anew under its evaluator',
             'unmerged <= 5, merged BFS to the fixpoint (complete reachable '
             'state space of the alphabet)'),
     'C05': ('H, model_checking',
-            '24 models; all evaluate-sequences <= 4, all 3-evaluator '
+            '25 models; all evaluate-sequences <= 4, all 3-evaluator '
             'sequences <= 3 (one with its own namespace), hand-over between '
             'evaluators after a set, reload of the model object under a '
             'living evaluator, every cell alone / forward / reverse in fresh '
@@ -64,8 +67,9 @@ ROWS = {
             'registered function (fail-closed table); aggregator lists and '
             'ranges incl. deciding members for AND/OR, cash-flow ranges of '
             'IRR / XNPV / XIRR, range+scalar error pairs; typed pairs; IS* '
-            'tables; error chains through dependants; Python-equal constants '
-            'in both reading orders (fresh process)',
+            'tables; error chains through dependants; one error cell behind '
+            'both operands; Python-equal constants in both reading orders '
+            '(fresh process)',
             '+ all nested operator triples'),
     'C08': ('P, exploration',
             'function x position x value x spelling (int, float, numpy 32/64 '
@@ -87,7 +91,8 @@ ROWS = {
             'depth <= 2 x all assignments; AND/OR 1-3 arguments over scalars '
             'and ranges, spied and unspied; FLIP / FIRST (fresh process) / '
             'ABSENT families; assignments in sequence on one model; ranges '
-            'on another sheet next to unqualified references',
+            'on another sheet next to unqualified references; argument counts '
+            'up to 255',
             'depth 3, 4 arguments'),
     'C11': ('P, exploration',
             'generated .xlsx files written byte by byte: 25 storage forms x '
@@ -95,7 +100,7 @@ ROWS = {
             'sheets x every ignored subset, two loads in one process, hidden '
             'sheets, shared formulas, names (sparse ranges, apostrophe '
             'sheets, sheet-scoped twins), single-cell sheets, sheets without '
-            'r attributes (all / constants only)',
+            'r attributes (all / constants only), dates with a time of day',
             'all 24 sheet orders'),
     'C12': ('H, model_checking',
             '2 models x 2 initial states, all histories <= 3 over 15/16 '
@@ -110,27 +115,31 @@ ROWS = {
             'named ranges incl. formula members / a member set after loading '
             '/ quoted sheet, gaps, Z-AA boundary, absent references) x all '
             'focus subsets x {fresh, evaluated} x change histories; closure, '
-            'non-interference, extraction of the extract',
+            'non-interference, extraction of the extract, a second extraction '
+            'from the changed original',
             'all 1 024 DAGs on 5 cells'),
     'C14': ('P, exploration',
             'all fills of rectangles <= 2x2 / 1x3 over two 5-symbol alphabets '
             'x all decompositions into sub-ranges and scalars x 6 functions; '
             '2x3 / 3x2 whole; rectangles over 255 cells; SUMPRODUCT shapes; '
             'two-sheet forms; formula members; cells changed (also to zero) '
-            'between evaluations; lower-case spellings',
+            'between evaluations; lower-case spellings; a logical flag read '
+            'before ranges of ones and zeros',
             'up to 2x3 all decompositions, 3x3 over 4 symbols'),
     'C15': ('P, exploration',
             'all columns <= 4 over 6 values x 45 criteria; fractional, '
             'digit-text, word and line-break alphabets; the column as second '
             'COUNTIFS range; COUNTIFS pairs; MATCH exact / approximate (mixed '
-            'types); VLOOKUP blocks; CHOOSE incl. fractional indexes; '
+            'types); VLOOKUP blocks; keys agreeing in nine digits; CHOOSE '
+            'incl. fractional indexes; '
             'SUMIF/SUMIFS generated but counted as '
             '`unsupported_by_installed_pandas`',
             'columns <= 5'),
     'C16': ('P, exploration',
             'rounding lattice m*10^e, all ties with 15-digit neighbours, '
             'extremes to 1.797e308, CEILING/FLOOR sign combinations, 21 unary '
-            'functions with domain bounds, binary grids, FACT; per function: '
+            'functions with domain bounds, binary grids, FACT (also of '
+            'arguments that are not whole); per function: '
             'calls at the edges of its domain followed by 33 probes in a '
             'fresh process',
             'denser lattices (33.9 M calls)'),
@@ -139,12 +148,13 @@ ROWS = {
             '12 functions, by call and by formula; identities; numbers and '
             'logicals as text; combining marks, characters outside the BMP, '
             'white space other than the blank; numeric-looking texts in '
-            'EXACT; literals that spell a defined name',
+            'EXACT; literals that spell a defined name; chains of 300 & '
+            'operands',
             'texts <= 6 (30 M calls)'),
     'C18': ('P, exploration',
             'sampled serial windows + every month edge 1900-9999 x 19 '
             'functions, region 1..61, time fractions, DATE carries, EDATE / '
-            'EOMONTH, all ordered pairs of 240 dates (DAYS, DATEDIF, '
+            'EOMONTH (also into December 9999), all ordered pairs of 240 dates (DAYS, DATEDIF, '
             'YEARFRAC, also after the values were used by YEARFRAC), results '
             'after 9999, a logical before the serial it equals in Python '
             '(fresh process)',
@@ -157,7 +167,8 @@ ROWS = {
             '+-2^19 dense (41 M calls)'),
     'C20': ('P, exploration',
             'NPV vectors <= 4 over 6 amounts x 16 rates x 7 routes (incl. a '
-            'two-row block), families of 5-30 flows, PMT / PV grids with '
+            'two-row block and flows grouped into lists and scalars), families '
+            'of 5-30 flows, PMT / PV grids with '
             'inversions, SLN, XNPV / XIRR over date gaps (incl. row / column '
             'mixes and day-number schedules), IRR / XIRR unit scaling, '
             'linearity',
